@@ -449,6 +449,12 @@ const yardlPrefix = "github.com/microsoft/yardl/"
 
 var interpretedForeign = map[string]bool{"slices": true, "maps": true, "cmp": true, "iter": true}
 
+// interpretedForeignFunc: small pure methods of foreign error types that yardl code calls (participle.Error).
+func interpretedForeignFunc(fn *ssa.Function) bool {
+	n := fn.String()
+	return strings.HasPrefix(n, "(*github.com/alecthomas/participle/v2.ParseError).") || strings.HasPrefix(n, "(*github.com/alecthomas/participle/v2.UnexpectedTokenError).")
+}
+
 // callSSA interprets a call to function fn with arguments args,
 // and lexical environment env, returning its result.
 // callpos is the position of the callsite.
@@ -470,7 +476,7 @@ func callSSA(i *interpreter, caller *frame, callpos token.Pos, fn *ssa.Function,
 		}
 	}
 	pp := pkgPathOf(fn)
-	if pp != "" && !strings.HasPrefix(pp, yardlPrefix) && !interpretedForeign[pp] {
+	if pp != "" && !strings.HasPrefix(pp, yardlPrefix) && !interpretedForeign[pp] && !interpretedForeignFunc(fn) {
 		if fn.Name() == "init" || strings.HasPrefix(fn.Name(), "init#") {
 			return nil // foreign package initialisers are never executed
 		}
